@@ -754,8 +754,18 @@ void ares_channel_threading_destroy(ares_channel_t *channel)
   channel->cond_empty = NULL;
 }
 
+#ifdef CARES_VERIF
+/* Verification hook: optional yield point to diversify thread schedules */
+void (*ares_verif_yield)(void) = NULL;
+#endif
+
 void ares_channel_lock(const ares_channel_t *channel)
 {
+#ifdef CARES_VERIF
+  if (ares_verif_yield != NULL) {
+    ares_verif_yield();
+  }
+#endif
   ares_thread_mutex_lock(channel->lock);
 }
 
